@@ -1,6 +1,6 @@
 (* Run_Raire.v — entry points evaluated by the correspondence harness for shangrla/raire (C04, C15).
    A case carries the inputs AND the implementation's output; agree_* compares inside Coq (vm_compute). *)
-From SV Require Export RaireCheck.
+From SV Require Export RaireCheck RaireAlgo.
 Open Scope nat_scope.
 
 (* profile given as ballot types with multiplicities *)
@@ -85,3 +85,19 @@ Definition agree_est (c : nat * nat * nat * Z * Z * Z * Z) : bool :=
   end.
 Definition show_est (c : nat * nat * nat * Z * Z * Z * Z) :=
   match c with (w, l, tot, _, _, _, _) => (bp_q w l tot, cp_q w l tot) end.
+
+(* the search itself: the model's assertion LIST (order included: nothing in the code's order comes from set
+   iteration) against the implementation run with the Fraction-valued difficulty function; (case, order hint) *)
+Definition run_model (c : raire_case) (hint : list cand) :=
+  raire (default_fuel (rc_cands c)) (dfun_of c) (rc_cands c) (expand (rc_types c)) (rc_tot c) (rc_winner c) hint.
+Definition agree_algo (ch : raire_case * list cand) : bool :=
+  let (c, hint) := ch in
+  match rc_out c, run_model c hint with
+  | Returned l, Some m =>
+      all2 (fun x y => match x, y with
+                       | (a, tw, tl, d), (a', tw', tl', d') =>
+                           same_as a a' && Nat.eqb tw tw' && Nat.eqb tl tl' && Qeq_bool d d'
+                       end) m l
+  | _, _ => false
+  end.
+Definition show_algo (ch : raire_case * list cand) := let (c, hint) := ch in run_model c hint.
